@@ -31,8 +31,8 @@ func (r6Num) r6Term()      {}
 func (r6Suffixed) r6Term() {}
 
 func TestVerif_C08_BuildRevalidates(t *testing.T) {
-	res := &xResult{Check: "Build validates every time", Property: "C08", Exhaustive: true,
-		Bound: "one root type built 4 times in one process with two Union member lists (acyclic; left-recursive through the union) in both orders",
+	res := &xResult{Check: "Build validates every production", Property: "C08", Exhaustive: true,
+		Bound: "one root type built 4 times in one process with two Union member lists (acyclic; left-recursive through the union) in both orders; a root that does not reach the union, with a left-recursive and with a sound member list",
 		Rule: "builds; all non-trivial"}
 	ok := func() error { _, err := participle.Build[r6Expr](participle.Union[r6Term](r6Num{})); return err }
 	bad := func() error {
@@ -51,7 +51,26 @@ func TestVerif_C08_BuildRevalidates(t *testing.T) {
 			res.violate("build %d (%s members): error %v", i+1, step.name, err)
 		}
 	}
+	// productions the root does not reach are entry points too (ParserForProduction): they are validated as well
+	res.Evaluations++
+	res.Distinct++
+	if p, err := participle.Build[r6Plain](participle.Union[r6Term](r6Suffixed{}, r6Num{})); err == nil {
+		res.violate("Build accepts a left-recursive union production that the root does not reach (ParserForProduction could start at it)")
+		_ = p
+	}
+	res.Evaluations++
+	if p, err := participle.Build[r6Plain](participle.Union[r6Term](r6Num{})); err != nil {
+		res.violate("Build rejects a grammar with a sound union the root does not reach: %v", err)
+	} else if q, err := participle.ParserForProduction[r6Num](p); err != nil {
+		res.violate("ParserForProduction on an unreached union member: %v", err)
+	} else if v, err := q.ParseString("", "7"); err != nil || v.V != "7" {
+		res.violate("parser for an unreached union member: %v %v", v, err)
+	}
 	res.emit(t)
+}
+
+type r6Plain struct {
+	A string `@Ident`
 }
 
 // ---- C14: a grammar with more productions than any other in the families ----
